@@ -13,13 +13,15 @@ theorem addIdentities_eq : ∀ (ns : List BNode) (k : Nat), addIdentities ns k =
 
 structure Bag.WF (b : Bag) : Prop where
   ids : ∀ n ∈ b.nodes3, n.id < b.next
-  single : SingleIncoming b.edges
+  outs : OutsNodup b.edges
   inLeaf : ∀ n ∈ b.inputs, ∀ e ∈ b.edges, e.out ≠ n
   inNames : ∀ n₁ ∈ b.inputs, ∀ n₂ ∈ b.inputs, n₁.name = n₂.name → n₁ = n₂
   outNames : ∀ n₁ ∈ b.outputs, ∀ n₂ ∈ b.outputs, n₁.name = n₂.name → n₁ = n₂
   virtOut : ∀ n ∈ b.outputs, b.virt.mem n.name = false
   virtIn : ∀ n ∈ b.inputs, b.virt.mem n.name = false
   persOut : ∀ x ∈ b.persistent, x ∈ names b.outputs
+
+theorem Bag.WF.single {b : Bag} (h : b.WF) : SingleIncoming b.edges := outsNodup_single h.outs
 
 theorem mem_edgeNodes_out {es : List BEdge} {e : BEdge} (h : e ∈ es) : e.out ∈ edgeNodes es := by
   simp only [edgeNodes, List.mem_flatMap]
